@@ -274,6 +274,82 @@ CHECKS['C24'] = {
                     'retry iterations of the queue push/pop are read-only on shared state; more than U retries per call are cut by assume (stutter-equivalent for safety)'],
 }
 
+
+# ---------------------------------------------------------------- C09
+HP_ABORT = 'basic_smr4scanE|basic_smr9help_scanE|basic_smr12classic_scanE|basic_smr12inplace_scanE'
+def _c09():
+    qs = []
+    def q(name, T, K, nops, pre=2, intr=0, ic=0, tiers=('quick', 'thorough'), timeout=900, U=3, style='goto'):
+        qs.append(Q(name, 'c09_stack.cpp', mode='coro', T=T, K=K, defs={'NOPS': nops, 'PREMAX': pre, 'INTRUSIVE': intr, 'ITEM_COUNTER': ic, 'VERIF_T': T, 'HP_ENV_THREADS': T},
+                    unwind=max(U, pre + T * nops + 2), unwind_fn={'linearizable': 26 if T * nops <= 4 else 122}, timeout=timeout, tiers=tiers, validate=6,
+                    cxxflags=['-fno-access-control'], object_bits=12, coro_style=style, atomic_fn='hp_env_model_pass', abort_fn=HP_ABORT, mem_gb=(16 if 'quick' in tiers else 40)))
+    q('treiber_value_T2_n1_K4', 2, 4, 1)
+    q('treiber_intrusive_T2_n1_K4', 2, 4, 1, intr=1)
+    q('treiber_value_T2_n1_K6_ic', 2, 6, 1, ic=1)
+    q('treiber_value_T3_n1_K4', 3, 4, 1, pre=1, tiers=('thorough',), timeout=3000)
+    q('treiber_value_T2_n2_K4', 2, 4, 2, pre=1, tiers=('thorough',), timeout=3000)
+    q('treiber_intrusive_T2_n2_K5', 2, 5, 2, pre=1, intr=1, tiers=('thorough',), timeout=3000)
+    q('treiber_value_T2_n2_K6', 2, 6, 2, pre=1, tiers=('thorough',), timeout=3000)
+    q('treiber_value_T3_n1_K6', 3, 6, 1, pre=1, tiers=('thorough',), timeout=3000)
+    return qs
+CHECKS['C09'] = {
+    'queries': _c09(), 'level': 'model_checking',
+    'outside': ['elimination back-off (needs cds::threading::Manager thread data) and FCStack (flat-combining kernel) are not encoded',
+                'DHP', 'reclamation passes are the proven specification of the real scan (hp_env.h), executed without preemption',
+                'more than 3 threads / 2 operations per thread; schedules with more than K-1 context switches; sequential consistency only'],
+    'assumptions': ['context switches only immediately before atomic operations (DRF-SC)'],
+}
+
+
+# ---------------------------------------------------------------- C06
+def _c06():
+    qs = []
+    def q(name, kind, T, K, nops, pre=2, ic=0, tiers=('quick', 'thorough'), timeout=900, U=3, style='goto'):
+        qs.append(Q(name, 'c06_queue.cpp', mode='coro', T=T, K=K, defs={'QUEUE_KIND': kind, 'NOPS': nops, 'PREMAX': pre, 'ITEM_COUNTER': ic, 'VERIF_T': T, 'HP_ENV_THREADS': T},
+                    spin={'do_enq|do_deq|enqueue_with|dequeue_with|do_dequeue': U}, unwind=max(U, pre + T * nops + 3), unwind_fn={'linearizable': 26 if T * nops <= 4 else 122}, timeout=timeout, tiers=tiers, validate=6,
+                    cxxflags=['-fno-access-control'], object_bits=12, coro_style=style, atomic_fn='hp_env_model_pass', abort_fn=HP_ABORT, mem_gb=(16 if 'quick' in tiers else 40)))
+    q('msqueue_T2_n1_K4', 0, 2, 4, 1, pre=1, U=2, timeout=3000)
+    q('moirqueue_T2_n1_K4', 1, 2, 4, 1)
+    q('basketqueue_T2_n1_K4', 2, 2, 4, 1)
+    q('optimisticqueue_T2_n1_K4', 3, 2, 4, 1)
+    q('rwqueue_T2_n1_K4', 4, 2, 4, 1)
+    return qs
+CHECKS['C06'] = {
+    'queries': _c06(), 'level': 'model_checking',
+    'outside': ['FCQueue (flat-combining kernel) and the intrusive variants as separate instantiations (the value containers are thin wrappers over them); DHP',
+                'reclamation passes are the proven specification of the real scan (hp_env.h), executed without preemption',
+                'more than 3 threads / 2 operations per thread; schedules with more than K-1 context switches; sequential consistency only (relaxed vs seq_cst traits cannot differ)'],
+    'assumptions': ['context switches only immediately before atomic operations (DRF-SC)'],
+}
+
+
+# ---------------------------------------------------------------- C11
+def _c11():
+    qs = []
+    def seq(name, heapsz, nops, prio=3, tiers=('quick', 'thorough'), timeout=900):
+        qs.append(Q(name, 'c11_pqueue.cpp', mode='seq', opt='O1', defs={'Q_SEQ': None, 'HEAPSZ': heapsz, 'NOPS': nops, 'PRIOMAX': prio},
+                    unwind=max(nops, heapsz, 8) + 3, timeout=timeout, tiers=tiers, validate=10))
+    def co(name, mode, T, K, nops, heapsz=4, tiers=('quick', 'thorough'), timeout=900, U=4, style='goto'):
+        qs.append(Q(name, 'c11_pqueue.cpp', mode='coro', T=T, K=K, defs={'Q_CORO': None, 'PQ_MODE': mode, 'HEAPSZ': heapsz, 'NOPS': nops, 'PRIOMAX': 3, 'VERIF_T': T},
+                    spin={'do_push|do_pop|spin_lock': 2}, unwind=max(U, heapsz, 8) + 2, unwind_fn={'linearizable': 26}, timeout=timeout, tiers=tiers, validate=6, coro_style=style))
+    seq('mspq_seq_cap3_n5', 4, 5)
+    seq('mspq_seq_cap7_n6', 8, 6, tiers=('thorough',), timeout=3000)
+    seq('mspq_seq_cap1_n6', 2, 6)
+    co('mspq_push_push_T2_n1_K4', 0, 2, 4, 1, tiers=('thorough',), timeout=3000)
+    co('mspq_pop_pop_T2_n1_K4', 1, 2, 4, 1, tiers=('thorough',), timeout=3000)
+    co('mspq_mixed_T2_n1_K4', 2, 2, 4, 1, tiers=('thorough',), timeout=3000)
+    co('mspq_push_push_T2_n1_K4_guard', 0, 2, 4, 1, tiers=('thorough',), timeout=3000, style='guard')
+    co('mspq_push_push_T2_n1_K6_cap7', 0, 2, 6, 1, heapsz=8, tiers=('thorough',), timeout=3000)
+    co('mspq_mixed_T2_n2_K5', 2, 2, 5, 2, tiers=('thorough',), timeout=3000)
+    co('mspq_mixed_T3_n1_K5', 2, 3, 5, 1, tiers=('thorough',), timeout=3000)
+    return qs
+CHECKS['C11'] = {
+    'queries': _c11(), 'level': 'model_checking',
+    'outside': ['FCPriorityQueue (flat-combining kernel not encoded)', 'heap capacities above 7 items; more than 6 calls per sequential script; more than 3 threads',
+                'sequential consistency only; schedules with more than K-1 context switches; node spin-locks: more than 2 failed acquisition attempts per lock() are cut by assume (stutter-equivalent for safety)'],
+    'assumptions': ['context switches only immediately before atomic operations (DRF-SC)', 'pthread_self() is the harness thread number (heap node tags)'],
+}
+
 # ---------------------------------------------------------------- C01 / C03 (HP reclamation pass, sequentialised threads)
 def _c01(tag):
     qs = []
